@@ -74,7 +74,16 @@ func (u *Unit) freshResults(st *State, sig *types.Signature, name string) []Valu
 func (u *Unit) evalArgs(st *State, call *ast.CallExpr, sig *types.Signature) []Value {
 	var args []Value
 	np := sig.Params().Len()
-	if len(call.Args) == 1 && np > 1 {
+	if len(call.Args) == 0 {
+		if sig.Variadic() {
+			st2 := sig.Params().At(np - 1).Type().(*types.Slice)
+			if np == 1 {
+				return []Value{sliceV(st2, IntLit(0), IntLit(0), IntLit(0), IntLit(0))}
+			}
+		}
+		return nil
+	}
+	if _, isTuple := u.typeOf(call.Args[0]).(*types.Tuple); len(call.Args) == 1 && np > 1 && isTuple {
 		// f(g()) with multi-value g
 		vs := u.evalMulti(st, call.Args[0], np)
 		for i, v := range vs {
